@@ -1425,6 +1425,74 @@ theorem child_stopped (k : Option Nat) (selfExit : Bool) (n : Nat)
       rw [proc_not_first k hk] at h
       cases selfExit <;> simp at h
 
+/-! ### the group started again: every run of a history has the property
+
+`runsOf mk ks ts` starts the group once per entry of `ks` (the earlier runs each ended by their cancellation, the
+retry/restart a user does after an error).  Every run of such a history is a run of the same group on terminals that
+differ from the declared ones only in the AL state they are found in — and the theorems above hold for every such
+state.  `fmmu_freed` of one run is what the next run's slot choice assumes (all of the terminal's FMMUs free). -/
+
+/-- same terminals, whatever AL state they are in -/
+def SameTerms (ts ts' : List Term) : Prop :=
+  ts'.map (fun t => (t.pos, t.rw, t.out, t.inp)) = ts.map (fun t => (t.pos, t.rw, t.out, t.inp))
+
+theorem sameTerms_restart (tr : List Act) (ts : List Term) : SameTerms ts (restartTerms tr ts) := by
+  simp [SameTerms, restartTerms, List.map_map, Function.comp_def]
+
+theorem runsOf_mem (mk : List Term → Coro Act) (ks : List (Option Nat)) : ∀ (ts0 ts : List Term), SameTerms ts0 ts →
+    ∀ r ∈ runsOf mk ks ts, ∃ k ts', k ∈ ks ∧ SameTerms ts0 ts' ∧ r = run k (mk ts') 0 := by
+  induction ks with
+  | nil => intro ts0 ts _ r hr; simp [runsOf] at hr
+  | cons k ks ih =>
+    intro ts0 ts hs r hr
+    simp only [runsOf, List.mem_cons] at hr
+    rcases hr with rfl | hr
+    · exact ⟨k, ts, by simp, hs, rfl⟩
+    · have hs' : SameTerms ts0 (restartTerms (run k (mk ts) 0).trace ts) := by
+        have := sameTerms_restart (run k (mk ts) 0).trace ts
+        unfold SameTerms at *
+        rw [this, hs]
+      obtain ⟨k', ts', hk, h1, h2⟩ := ih ts0 _ hs' r hr
+      exact ⟨k', ts', by simp [hk], h1, h2⟩
+
+/-- **slow group, any history of starts**: each run ends cancelled or is still running (its cancellation index was
+never reached); a run that ended has every OPERATIONAL request followed by a SAFE-OPERATIONAL request of the same
+terminal *within that run*, and leaves the FMMU slot table empty -/
+theorem restart_slow (ks : List (Option Nat)) (ts : List Term) (n : Nat) :
+    ∀ r ∈ runsOf (fun ts => slowRun ts n) ks ts,
+      (r.out = .raised .cancelled ∨ r.out = .pending) ∧
+      (r.out ≠ .pending → opCovered r.trace = true ∧ tabAfter slotCls r.trace [] = []) := by
+  intro r hr
+  obtain ⟨k, ts', _, _, rfl⟩ := runsOf_mem _ ks ts ts rfl r hr
+  refine ⟨?_, fun hp => ⟨slowRun_op k ts' n 0 hp, fmmu_freed_slow k ts' n hp⟩⟩
+  rcases ends_cancelled_slow k ts' n with h | h
+  · exact Or.inl h
+  · right
+    have h2 := never_returns_slow ts' n
+    have := congrArg Prod.snd h
+    simp only [runCancel] at this h2
+    rw [this, h2]
+
+/-- **fast group, any history of starts**: additionally the program-table and `sync_groups` entries are gone after
+every run that ended -/
+theorem restart_fast (ks : List (Option Nat)) (busy : List Nat) (index : Nat) (ts : List Term) (n : Nat) :
+    ∀ r ∈ runsOf (fun ts => fastRun busy index ts n) ks ts,
+      (r.out = .raised .cancelled ∨ r.out = .pending) ∧
+      (r.out ≠ .pending → tabAfter slotCls r.trace [] = [] ∧ tabAfter progCls r.trace [] = [] ∧
+        tabAfter groupCls r.trace [] = [] ∧
+        ∀ pre t post, r.trace = pre ++ .setState t ms_OPERATIONAL :: post → .setState t ms_SAFE_OPERATIONAL ∈ post) := by
+  intro r hr
+  obtain ⟨k, ts', _, _, rfl⟩ := runsOf_mem _ ks ts ts rfl r hr
+  refine ⟨?_, fun hp => ⟨fmmu_freed_fast k busy index ts' n hp, (program_unregistered k busy index ts' n hp).1,
+    (program_unregistered k busy index ts' n hp).2.1, fun pre t post e => op_implies_safeop_fast k busy index ts' n hp pre t post e⟩⟩
+  rcases ends_cancelled_fast k busy index ts' n with h | h
+  · exact Or.inl h
+  · right
+    have h2 := never_returns_fast busy index ts' n
+    have := congrArg Prod.snd h
+    simp only [runCancel] at this h2
+    rw [this, h2]
+
 /-! ### non-vacuity: concrete runs that exercise the hypotheses -/
 
 /-- a read-write terminal with both mappings starting in PRE-OP, a read-only one with an IN mapping in INIT -/
@@ -1448,6 +1516,13 @@ example : runCancel (some 7) (fastRun [5] 7 [⟨1, true, some 1, none, 4⟩] 2) 
 example : runCancel (some 0) (procRun false 5) = (procCancelledTrace, .raised .cancelled) := by decide
 example : slotsOf 3 true true = some (some 1, some 2) ∧ slotsOf 2 true true = some (some 1, some 0) ∧
     slotsOf 1 true false = some (some 0, none) := by decide
+
+-- started again after a cancellation in the second cycle: the terminals are found in SAFE-OP (4) resp. as left, and the
+-- second run, cancelled while the OPERATIONAL request is in flight (await 5 now), still asks back to SAFE-OP
+example : ((runsOf (fun ts => slowRun ts 3) [some 14, some 5] exTerms).map (·.out) = [.raised .cancelled, .raised .cancelled]) ∧
+    ((runsOf (fun ts => slowRun ts 3) [some 14, some 5] exTerms).map (fun r => opCovered r.trace) = [true, true]) ∧
+    ((runsOf (fun ts => slowRun ts 3) [some 14, some 5] exTerms)[1]?.map fun r => r.trace.drop 8) =
+      some [.send, .setState 1 8, .setState 1 4, .slot 2 1 false, .slot 1 2 false, .slot 1 1 false] := by decide
 
 /-! ### the two defects already fixed in /repo, as the model sees them
 
